@@ -52,7 +52,7 @@ def _traj(draw):
             mode = draw(st.sampled_from(["on", "between", "below", "beyond", "any"]))
             if n and mode == "on":
                 i = draw(st.integers(0, n - 1))
-                q = {"kind": "dist", "unit": u, "on": i}
+                q = {"kind": "dist", "unit": u, "on": i, "ft_on": rows[i][0]}
             elif n and mode == "between":
                 i = draw(st.integers(0, n - 1))
                 f = draw(st.floats(0.0, 1.0))
@@ -88,7 +88,12 @@ def _traj(draw):
         else:
             q = {"kind": "flag", "flag": draw(st.sampled_from([1, 2, 4, 8, 3]))}
         qs.append(q)
-    return {"rows": rows, "queries": qs, "peaked": peaked, "peak": peak}
+    # history: in-place edits of the result's row list between look-ups on the same HitResult object
+    edits = []
+    for _ in range(draw(st.integers(0, 2))):
+        k = draw(st.sampled_from(["truncate", "drop-head", "extend", "clear"]))
+        edits.append([k, draw(st.integers(0, 60)), draw(st.floats(0.0, 300.0)), draw(st.floats(0.0, 1.0))])
+    return {"rows": rows, "queries": qs, "peaked": peaked, "peak": peak, "edits": edits}
 
 
 _SHOT = None
@@ -121,15 +126,18 @@ def _first(pred, rows):
     return -1
 
 
-def _check_queries(r, traj, queries, inside_counter):
-    hit = pb.HitResult(_shot(), traj, True)
+def _check_queries(r, traj, queries, inside_counter, hit=None):
+    if hit is None:
+        hit = pb.HitResult(_shot(), traj, True)
     n = len(traj)
     for q in queries:
         k = q["kind"]
         if k == "dist":
             u = Unit[q["unit"]]
-            if "on" in q:
+            if "on" in q and q["on"] < len(traj):
                 val = traj[q["on"]].distance >> u
+            elif "on" in q:  # the row was removed by an in-place edit: query its former distance
+                val = pb.Distance.Foot(q.get("ft_on", 0.0)) >> u
             else:
                 val = pb.Distance.Foot(q["ft"]) >> u
             exp = _first(lambda row: (row.distance >> u) >= val, traj)
@@ -234,6 +242,31 @@ def check(case):
                 for name, got in (("in_points", H.find_index_of_apex_in_points(traj)), ("point", H.find_index_of_apex_point(hit))):
                     if got != exp:
                         r.bad("C20:apex:" + name, f"apex helper returned {got}, highest row is {exp}")
+    # history: the same HitResult after in-place edits of its row list must answer for the rows it has now
+    if case.get("edits"):
+        live = pb.HitResult(_shot(), list(traj), True)
+        _check_queries(r, live.trajectory, case["queries"], [0], hit=live)
+        for k, a, dd, dtt in case["edits"]:
+            rows_now = live.trajectory
+            if k == "truncate":
+                del rows_now[a % (len(rows_now) + 1):]
+            elif k == "drop-head":
+                del rows_now[:a % (len(rows_now) + 1)]
+            elif k == "clear":
+                rows_now.clear()
+            else:
+                base = rows_now[-1] if rows_now else None
+                d0 = (base.distance.raw_value / 12.0) if base else 0.0
+                t0 = base.time if base else 0.0
+                rows_now.extend(_mk_rows([[d0 + dd * (i + 1), t0 + dtt * (i + 1), 0.0, 900.0, 8] for i in range(1 + a % 3)]))
+            before = len(r.violations)
+            _check_queries(r, rows_now, case["queries"], [0], hit=live)
+            if len(r.violations) > before:
+                v = r.violations[before]
+                v.key = v.key + ":after-in-place-edit"
+                del r.violations[before + 1:]
+                break
+        r.label("edited-in-place")
     r.nontrivial = n >= 3 and inside[0] > 0
     if any(case["rows"][i][0] == case["rows"][i + 1][0] for i in range(n - 1)):
         r.label("repeated-distance")
